@@ -2,7 +2,9 @@ package main
 
 import (
 	"fmt"
+	"github.com/kardiachain/go-kardia/kai/state/pruner"
 	"strings"
+	"sync/atomic"
 
 	"github.com/kardiachain/go-kardia/kai/kaidb/memorydb"
 	"github.com/kardiachain/go-kardia/kai/state/cstate"
@@ -418,8 +420,32 @@ func checkChain(cfg *config, seq []uint8, prune *[2]uint64, only bool) ([]obs, *
 			ranges = append(ranges, [2]int{from, to})
 		}
 	}
+	// the OTHER pruner: the offline state pruner (kai/state/pruner) sweeps the same database and deletes whatever it takes
+	// for a stale hash-keyed trie node; nothing of the consensus state may fall under its rule
+	ranges = append(ranges, [2]int{-1, -1})
 	for _, rg := range ranges {
 		from, to := rg[0], rg[1]
+		if from == -1 {
+			if only && prune[0] != sweepMark {
+				continue
+			}
+			db := restoreDB(image)
+			c := base
+			c.Prune = &[2]uint64{sweepMark, sweepMark}
+			if p, v := safely(func() { pruner.VerifSweep(db, nil) }); p {
+				out = append(out, obs{sig: "C14|after=state-sweep|got=panic|oracle=no-panic", what: "the state pruner's sweep panicked: " + v, c: c})
+				continue
+			}
+			st.transitions++
+			atomic.AddInt64(&sweepCases, 1)
+			after := read(ch, db, true, all, st)
+			for _, o := range checkAfterPrune(ch, before, after, 0, 0, true, all, c, st) {
+				o.sig = strings.Replace(o.sig, "C14|", "C14|after=state-sweep|", 1)
+				o.what = "after the offline state pruner's sweep over the database: " + o.what
+				out = append(out, o)
+			}
+			continue
+		}
 		if only && (uint64(from) != prune[0] || uint64(to) != prune[1]) {
 			continue
 		}
@@ -446,6 +472,10 @@ func checkChain(cfg *config, seq []uint8, prune *[2]uint64, only bool) ([]obs, *
 	}
 	return out, st
 }
+
+const sweepMark = ^uint64(0)
+
+var sweepCases int64
 
 func seqInts(lo, hi int) []int {
 	var out []int
